@@ -65,13 +65,24 @@ def run(case) -> dict:
     idxs, domain = case[:2]
     hosts = case[2] if len(case) > 2 and case[2] else None      # host id per record (repeated targets)
     fails = case[3] if len(case) > 3 else 0                     # number of failing queries before the answered one
+    earlier = case[4] if len(case) > 4 else None                # answer set of an earlier lookup of the same name in this process
     records = [RECORD_TYPES[i] + ((hosts[k],) if hosts else ()) for k, i in enumerate(idxs)]
     outs = {}
     calls = {}
+    probes_extra: t.Dict[str, int] = {}
     world = W.World(len(idxs))
     for fl in ("sync", "async"):
         res = Resolver(world, records, fail_first=fails, fail_kind=len(idxs) % 2)
         with world.installed(resolver=res, patch_entropy=False):
+            if earlier:
+                # the DNS data changed since an earlier lookup (weights / priorities were re-balanced)
+                res.records = [RECORD_TYPES[i] for i in earlier]
+                if fl == "sync":
+                    drive.classify(lambda: ddns.lookup_dc(domain))
+                else:
+                    drive.classify(lambda: drive.run_async(world, lambda: ddns.async_lookup_dc(domain)))
+                res.records = records
+                probes_extra["after_earlier_lookup"] = 1
             for attempt in range(fails + 1):
                 # a lookup that failed (resolver fault) is simply repeated by the caller, in the same process
                 if fl == "sync":
@@ -82,7 +93,6 @@ def run(case) -> dict:
                     break
         calls[fl] = res.calls[-1:]
     viol = None
-    probes_extra: t.Dict[str, int] = {}
 
     def V(fl, cond, detail):
         return common.violation("C20", cond, fl, "after-resolver-fault" if fails else "", "", "",
@@ -131,12 +141,12 @@ class C20(common.Check):
             "priority {0,1,2} x weight {0,1,2} x target spelling {absolute with trailing dot, relative} are enumerated (111150 sequences; "
             "length 5 = 1.9 M exhaustively in thorough, sampled in quick), each through lookup_dc and async_lookup_dc; answers of 2..3 records in which "
             "several records name the same host (all host assignments); resolver faults (the first 1..2 queries time out or return NXDOMAIN and "
-            "the caller repeats the lookup in the same process). Non-trivial = more than "
+            "the caller repeats the lookup in the same process); the same name looked up twice while the answer set changed in between. Non-trivial = more than "
             "one record or a trailing-dot target; distinct = distinct (sequence, domain).")
     components = {"selection code": "real (dpapi_ng._dns lookup_dc / async_lookup_dc / _get_highest_answer)", "resolver": "stub node returning real dnspython SRV rdata",
                   "async runtime": "simulated loop"}
     assumptions = ["no DNS wire format is simulated: dnspython is a dependency, not the system under test", "ties between equal (priority, weight) records are not judged beyond sync == async"]
-    required_fired = ("trailing_dot", "relative_target", "ties", "dns_reorder", "repeated_target", "after_resolver_fault", "dns_fault")
+    required_fired = ("trailing_dot", "relative_target", "ties", "dns_reorder", "repeated_target", "after_resolver_fault", "dns_fault", "after_earlier_lookup")
 
     def exhaustive(self, tier):
         return True
@@ -162,6 +172,11 @@ class C20(common.Check):
         rng0 = prng.stream(seed, "C20", "faults")
         for _ in range(3000 if tier == "quick" else 60000):
             out.append([[rng0.randrange(n) for _ in range(rng0.randint(1, 4))], rng0.choice(("corp.example", None, "")), None, rng0.randint(1, 2)])
+        # the same name looked up twice in one process while the answer set changed in between
+        for _ in range(4000 if tier == "quick" else 80000):
+            a = [rng0.randrange(n) for _ in range(rng0.randint(1, 4))]
+            b_ = [rng0.randrange(n) for _ in range(len(a))] if rng0.random() < 0.7 else [rng0.randrange(n) for _ in range(rng0.randint(1, 4))]
+            out.append([b_, rng0.choice(("corp.example", None)), None, 0, a])
         if tier == "quick":
             rng = prng.stream(seed, "C20")
             for _ in range(20000):
@@ -184,7 +199,7 @@ class C20(common.Check):
 
     def sample_repr(self, case, res):
         return {"records_priority_weight_spelling": [RECORD_TYPES[i] for i in case[0]], "domain": case[1], "host_per_record": case[2] if len(case) > 2 else None,
-                "failing_queries_before": case[3] if len(case) > 3 else 0}
+                "failing_queries_before": case[3] if len(case) > 3 else 0, "earlier_answer_set": [RECORD_TYPES[i] for i in case[4]] if len(case) > 4 else None}
 
 
 CHECK = C20()
